@@ -50,6 +50,18 @@ pub struct Sc {
     pub method: Method,
     pub parallel: Option<usize>,
     pub mode: Mode,
+    /// what is at the --out path before the tool runs (cli::precreate): 0 nothing, 1 longer garbage,
+    /// 2 a longer valid answer (sample lines of the right width, or a long number)
+    #[serde(default)]
+    pub pre: u8,
+    /// in-process runs: an earlier `Cli::run` call in the same process and on the same thread,
+    /// before the query under test (state that survives between invocations must not reach the
+    /// answer): 0 none; 1 the same query on a sibling circuit (same gates and qubits, other
+    /// rz/rx angles); 2 the same, with T/S gates replaced by their adjoints as well; 3 another
+    /// circuit at the SAME path, which is then overwritten by the real one; 4 a failing call
+    /// (query of the wrong length) first
+    #[serde(default)]
+    pub history: u8,
 }
 
 pub struct C06;
@@ -372,6 +384,13 @@ impl Judge<'_> {
                     // wide registers: the numbers are tiny, so the tolerance is relative there
                     let tol = if self.t.wide {
                         1e-9 * x.abs() + if matches!(q, Query::Amp(_)) { 1e-25 } else { 1e-15 }
+                    } else if self.t.exact && matches!(q, Query::Amp(_)) {
+                        // Clifford+T: the tool computes in exact arithmetic and prints the f64 nearest to
+                        // the result, so a printed probability is good to a relative 1e-9 however small
+                        // it is (an absolute tolerance would accept '0' for a probability of 2^-40). Not
+                        // for expectation values: the reference computes those in floating point, where
+                        // an exact zero comes out as +-1e-17.
+                        1e-9 * x.abs() + 1e-18
                     } else {
                         self.tol()
                     };
@@ -444,6 +463,46 @@ impl Judge<'_> {
                 return;
             }
         }
+    }
+}
+
+/// The same gates on the same qubits with other angles: every rz/rx angle is moved by a quarter
+/// or half turn (the gate keeps its name); with `named` the fixed-angle gates T, S and their
+/// adjoints are exchanged as well.
+fn sibling(c: &HCirc, named: bool) -> HCirc {
+    let mut o = c.clone();
+    for (i, g) in o.gates.iter_mut().enumerate() {
+        let shift = |n: i64, d: i64| -> (i64, i64) {
+            // + 1/2 or + 1/4 half-turns, alternating
+            let (sn, sd) = if i % 2 == 0 { (1, 2) } else { (1, 4) };
+            gen::reduce(n * sd + sn * d, d * sd)
+        };
+        g.k = match g.k {
+            GK::Rz(n, d) => {
+                let (a, b) = shift(n, d);
+                GK::Rz(a, b)
+            }
+            GK::Rx(n, d) => {
+                let (a, b) = shift(n, d);
+                GK::Rx(a, b)
+            }
+            GK::RzMix(a, n, d) => GK::RzMix(a + 500, n, d),
+            GK::RxMix(a, n, d) => GK::RxMix(a + 500, n, d),
+            GK::T if named => GK::Tdg,
+            GK::Tdg if named => GK::T,
+            GK::S if named => GK::Sdg,
+            GK::Sdg if named => GK::S,
+            k => k,
+        };
+    }
+    o
+}
+
+/// A valid-looking answer of the query's kind, to fill a pre-existing output file with.
+fn stale_answer(sc: &Sc) -> String {
+    match &sc.query {
+        Query::Amp(_) | Query::Exp(_) => "0.12345678901234567\n".to_string(),
+        _ => format!("{}\n", "01".repeat(sc.circ.n.div_ceil(2)).chars().take(sc.circ.n.max(1)).collect::<String>()),
     }
 }
 
@@ -884,6 +943,24 @@ impl Property for C06 {
                 };
                 // enough shots for the per-position drift test (S4) in a quarter of the runs
                 let q = if d.coin("wmany", 1, 4) { Query::Shots(64 + d.choose("wshots", 17)) } else { q };
+                // a random bit string almost never lies in the support of a wide state: three
+                // amplitude queries in four ask for a string that does (probability 2^-20 .. 2^-48,
+                // printed numbers are compared with a relative tolerance there)
+                let q = match q {
+                    Query::Amp(s) if s.len() == n && d.coin("wsupp", 3, 4) => {
+                        let t = truth(&circ);
+                        let mut bits = vec![false; n];
+                        for f in &t.factors {
+                            let nz: Vec<usize> = (0..f.probs.len()).filter(|&i| !f.zero[i]).collect();
+                            let i = nz[d.choose("wsuppi", nz.len())];
+                            for (li, &qq) in f.qs.iter().enumerate() {
+                                bits[qq] = (i >> li) & 1 == 1;
+                            }
+                        }
+                        Query::Amp(bits.iter().map(|&b| if b { '1' } else { '0' }).collect())
+                    }
+                    q => q,
+                };
                 (q, Mode::InProcess)
             }
             // batch-size and buffer boundaries of the sampling loop and of the result writer
@@ -891,7 +968,9 @@ impl Property for C06 {
             _ => (gen_query(d, n, 16), Mode::InProcess),
         };
         let parallel = if sub == "child_threads" { Some(d.choose("pdepth", 4)) } else { parallel };
-        Sc { circ, query, method, parallel, mode }
+        let pre = if d.coin("pre", 1, 3) { 1 + d.choose("prek", 2) as u8 } else { 0 };
+        let history = if matches!(mode, Mode::InProcess) && sub != "stats" && sub != "many_shots" && d.coin("hist", 1, 3) { 1 + d.choose("histk", 4) as u8 } else { 0 };
+        Sc { circ, query, method, parallel, mode, pre, history }
     }
 
     fn execute(&self, sc: &Sc, sub: &str, exec: Decider, env: &Env) -> RunOut {
@@ -948,7 +1027,6 @@ impl Property for C06 {
         let stmts = sc.circ.qasm_statements();
         match &sc.mode {
             Mode::InProcess => {
-                let input = cli::prepare_input(&scratch, &header, &stmts, &InFault::None);
                 // the query under the chosen (method, parallel) and under two variations
                 let other_method = match sc.method {
                     Method::Bss => Method::Cats,
@@ -958,6 +1036,34 @@ impl Property for C06 {
                     Some(_) => None,
                     None => Some(2),
                 };
+                if sc.history > 0 {
+                    // an earlier call on this thread; its own answer is not judged here
+                    out.probe(&format!("cli_call_history.{}", sc.history));
+                    let (wcirc, wtail): (HCirc, Vec<String>) = match sc.history {
+                        1 | 2 => (sibling(&sc.circ, sc.history == 2), argv_tail(sc)),
+                        3 => (sibling(&sc.circ, true), argv_tail(sc)),
+                        _ => (sc.circ.clone(), vec!["-a".into(), "0".repeat(t.n + 2)]),
+                    };
+                    let wpath = if sc.history == 3 {
+                        // same path as the real input, which prepare_input overwrites afterwards
+                        let p = scratch.path("in.qasm");
+                        std::fs::write(&p, wcirc.to_qasm()).expect("scratch write");
+                        p
+                    } else {
+                        let p = scratch.path("earlier.qasm");
+                        std::fs::write(&p, wcirc.to_qasm()).expect("scratch write");
+                        p
+                    };
+                    let mut argv: Vec<String> = vec!["quizx".into(), "sim".into(), wpath.to_string_lossy().to_string()];
+                    argv.extend(wtail);
+                    argv.extend(method_args(sc.method, sc.parallel));
+                    argv.push("-o".into());
+                    argv.push(scratch.path("earlier-out.txt").to_string_lossy().to_string());
+                    let (_res, core) = cli::run_in_process(&argv, dec, 1);
+                    dec = core.dec;
+                    out.steps += 1;
+                }
+                let input = cli::prepare_input(&scratch, &header, &stmts, &InFault::None);
                 let variants = if sub == "stats" || sub == "many_shots" {
                     vec![(sc.method, sc.parallel)]
                 } else {
@@ -965,6 +1071,10 @@ impl Property for C06 {
                 };
                 for (vi, (m, p)) in variants.into_iter().enumerate() {
                     let outp = scratch.path(&format!("out{vi}.txt"));
+                    cli::precreate(&outp, sc.pre, &stale_answer(sc));
+                    if sc.pre > 0 {
+                        out.probe("output_file_preexisting_longer_content");
+                    }
                     let mut argv: Vec<String> = vec!["quizx".into(), "sim".into(), input.to_string_lossy().to_string()];
                     argv.extend(argv_tail(sc));
                     argv.extend(method_args(m, p));
@@ -1119,6 +1229,9 @@ impl Property for C06 {
                 let mut tail: Vec<String> = vec!["sim".into(), input.to_string_lossy().to_string()];
                 tail.extend(argv_tail(sc));
                 tail.extend(method_args(sc.method, sc.parallel));
+                if !*to_stdout {
+                    cli::precreate(&scratch.path("out.txt"), sc.pre, &stale_answer(sc));
+                }
                 let (res, events) = cli::run_child_sys(&bin, &tail, &scratch, plan, *to_stdout);
                 out.steps += 1 + events.len() as u64;
                 let mut fired = 0;
@@ -1192,6 +1305,9 @@ impl Property for C06 {
                 let mut tail: Vec<String> = vec!["sim".into(), input.to_string_lossy().to_string()];
                 tail.extend(argv_tail(sc));
                 tail.extend(method_args(sc.method, sc.parallel));
+                if matches!(outf, OutFault::None | OutFault::Efbig(_)) {
+                    cli::precreate(&scratch.path("out.txt"), sc.pre, &stale_answer(sc));
+                }
                 let (res, _p) = cli::run_child(&bin, &tail, &scratch, outf);
                 out.steps += 1;
                 out.fault(inf.name());
@@ -1339,6 +1455,12 @@ impl Property for C06 {
         }
         if sc.parallel.is_some() {
             c.push(Sc { parallel: None, ..sc.clone() });
+        }
+        if sc.pre != 0 {
+            c.push(Sc { pre: 0, ..sc.clone() });
+        }
+        if sc.history != 0 {
+            c.push(Sc { history: 0, ..sc.clone() });
         }
         if sc.method != Method::Default {
             c.push(Sc { method: Method::Default, ..sc.clone() });
